@@ -1,5 +1,6 @@
 import IxpeVerif.Model.Gti
 import IxpeVerif.Lemmas.ImpTie
+import IxpeVerif.Lemmas.TimelineTie
 /-!
 # C18 — GTI algebra, timeline-derived GTIs and binned exposures are exact (core Lean only)
 -/
@@ -239,5 +240,63 @@ theorem gen_complement_tiles (l : List Ivl) (s e : Int) (h : l.head? = some (s, 
 
 example : Gen.Imp.bin_gti 0 10 [1, 5, 12] [3, 11, 20] = 7 ∧ Gen.Imp.gti_complement [(0, 3), (5, 8), (9, 12)] = [(3, 5), (8, 9)] ∧
     Gen.Imp.filter_event_times [(0, 3), (5, 8)] [1, 4, 5, 9] = ([1, 5], [true, false, true, false]) := by decide
+
+/-! ### T-tie of the observation timeline: `xTimelineEpoch.shrink/isgti/isocti`, `xTimeInterval.bounds/duration`,
+`xObservationTimeline._bisect_odd/_calculate_epochs/filter_epochs/gti_list/octi_list` regenerated from `instrument/traj.py` and `utils/time_.py` -/
+
+/-- the generated `gti_list` (filter by duration, keep the epochs that are neither in the SAA nor occulted, shrink, take the bounds) is the model -/
+theorem gen_timeline_gti_list_eq_model (eps : List Np.Epoch) (m a b : Int) :
+    Gen.Imp.timeline_gti_list eps m a b = gtiList m a b (eps.map TimelineTie.conv) := TimelineTie.gen_gti_list_eq_model eps m a b
+
+theorem gen_timeline_octi_list_eq_model (eps : List Np.Epoch) (m a b : Int) :
+    Gen.Imp.timeline_octi_list eps m a b = octiList m a b (eps.map TimelineTie.conv) := TimelineTie.gen_octi_list_eq_model eps m a b
+
+theorem gen_filter_epochs_eq_model (eps : List Np.Epoch) (m a b : Int) :
+    (Gen.Imp.filter_epochs eps m a b).map TimelineTie.conv = filterEpochs m a b (eps.map TimelineTie.conv) :=
+  TimelineTie.gen_filter_epochs_eq_model eps m a b
+
+/-- `_bisect_odd` (a `searchsorted`) is the parity of the number of marks below the value, on a sorted array of marks -/
+theorem gen_bisect_odd_eq_model (arr : List Int) (v : Int) (hs : arr.Pairwise (· ≤ ·)) :
+    Gen.Imp.bisect_odd arr v = bisectOdd arr v := TimelineTie.gen_bisect_odd_eq_model arr v hs
+
+/-- the loop of `_calculate_epochs` (enumerate, index `i + 1`, bisection at `0.5 * (start + stop)`) is the model, for even marks (the midpoint
+is then exact on ticks) and sorted SAA / occultation marks -/
+theorem gen_calculate_epochs_eq_model (mets saa occ : List Int) (heven : ∀ m ∈ mets, m % 2 = 0)
+    (hsaa : saa.Pairwise (· ≤ ·)) (hocc : occ.Pairwise (· ≤ ·)) :
+    (Gen.Imp.calculate_epochs mets saa occ).map TimelineTie.conv = calcEpochs saa occ mets :=
+  TimelineTie.gen_calculate_epochs_eq_model mets saa occ heven hsaa hocc
+
+/-- **timeline-derived GTIs, on the current source**: an interval is returned iff it is an epoch that is neither in the SAA nor occulted, longer
+than the minimum duration plus the paddings, shrunk by the start / stop padding -/
+theorem gen_gti_list_spec (eps : List Np.Epoch) (m a b : Int) (g : Ivl) :
+    g ∈ Gen.Imp.timeline_gti_list eps m a b ↔
+      ∃ e ∈ eps, e.in_saa = false ∧ e.occulted = false ∧ e.stop_met - e.start_met > m + a + b ∧ g = (e.start_met + a, e.stop_met - b) := by
+  rw [gen_timeline_gti_list_eq_model, gti_list_spec]
+  constructor
+  · rintro ⟨e', he', h⟩
+    obtain ⟨e, he, rfl⟩ := List.mem_map.mp he'
+    exact ⟨e, he, h⟩
+  · rintro ⟨e, he, h⟩
+    exact ⟨TimelineTie.conv e, List.mem_map.mpr ⟨e, he, rfl⟩, h⟩
+
+/-- **calibration intervals, on the current source**: occulted and not in the SAA -/
+theorem gen_octi_list_spec (eps : List Np.Epoch) (m a b : Int) (g : Ivl) :
+    g ∈ Gen.Imp.timeline_octi_list eps m a b ↔
+      ∃ e ∈ eps, e.occulted = true ∧ e.in_saa = false ∧ e.stop_met - e.start_met > m + a + b ∧ g = (e.start_met + a, e.stop_met - b) := by
+  rw [gen_timeline_octi_list_eq_model, octi_list_spec]
+  constructor
+  · rintro ⟨e', he', h⟩
+    obtain ⟨e, he, rfl⟩ := List.mem_map.mp he'
+    exact ⟨e, he, h⟩
+  · rintro ⟨e, he, h⟩
+    exact ⟨TimelineTie.conv e, List.mem_map.mpr ⟨e, he, rfl⟩, h⟩
+
+/-- every GTI of the generated `gti_list` is longer than the requested minimum duration -/
+theorem gen_gti_list_duration (eps : List Np.Epoch) (m a b : Int) (g : Ivl) (h : g ∈ Gen.Imp.timeline_gti_list eps m a b) : g.2 - g.1 > m := by
+  rw [gen_timeline_gti_list_eq_model] at h; exact gti_list_duration m a b _ g h
+
+/-- the generated chain marks → epochs → GTIs on a concrete timeline: SAA during [40, 60], occultation during [20, 50] and [80, 100] -/
+example : Gen.Imp.timeline_gti_list (Gen.Imp.calculate_epochs [0, 20, 40, 50, 60, 80, 100, 120] [40, 60] [20, 50, 80, 100]) 5 2 4 = [(2, 16), (62, 76), (102, 116)] ∧
+    Gen.Imp.timeline_octi_list (Gen.Imp.calculate_epochs [0, 20, 40, 50, 60, 80, 100, 120] [40, 60] [20, 50, 80, 100]) 5 2 4 = [(22, 36), (82, 96)] := by decide
 
 end Gti
